@@ -8,36 +8,41 @@
 (* reassigned).  The cache directory holds the stored source (`code`) and, *)
 (* per argument key, the version whose code computed the stored result.    *)
 (* Per process: _FUNCTION_HASHES (fh), _FUNCTION_CODE_WRITERS (writer) and *)
-(* each wrapper's cached source (src / cid = func_code_info).              *)
+(* each wrapper's cached source (src / cid = func_code_info).  The same    *)
+(* function may be cached through several Memory objects (Stores): stored  *)
+(* source, results and the writers table are per store, _FUNCTION_HASHES   *)
+(* is per function object only.                                            *)
 (* Switches (TRUE = current tree): FixD6, FixD13, FixD5c.                  *)
 (***************************************************************************)
 EXTENDS Integers, Sequences, FiniteSets, TLC, Json
 
-CONSTANTS Procs, Slots, Vers, Keys, MaxOps, FixD6, FixD13, FixD5c, Gen
+CONSTANTS Procs, Slots, Vers, Keys, Stores, MaxOps, FixD6, FixD13, FixD5c, Gen
 
 Objs == Procs \X Slots
 
 VARIABLES
   ocode,    \* [Objs -> Vers \cup {0}]   code version run by the object, 0 = not defined
-  code,     \* stored source (version) or 0
-  entries,  \* [Keys -> Vers \cup {0}]   version whose code computed the stored result
+  code,     \* [Stores -> stored source (version) or 0]
+  entries,  \* [Stores -> [Keys -> Vers \cup {0}]]   version whose code computed the stored result
   fh,       \* [Objs -> Vers \cup {0}]   _FUNCTION_HASHES of the owner process: code version recorded, 0 = absent
-  writer,   \* [Procs -> Objs \cup {<<0, 0>>}]   last object of that process that stored its source
-  src,      \* [Objs -> Vers \cup {0}]   source cached by the wrapper (func_code_info)
-  cid,      \* [Objs -> Vers \cup {0}]   code version the wrapper believes its cached source belongs to
-  must,     \* [Keys -> Vers \cup {0}]   ghost: version for which a completed, not since invalidated call exists
+  writer,   \* [Procs -> [Stores -> <<object, code version>> or None]]   who last stored its source there (this process)
+  src,      \* [Objs -> [Stores -> Vers \cup {0}]]   source cached by the wrapper (func_code_info)
+  cid,      \* [Objs -> [Stores -> Vers \cup {0}]]   code version the wrapper believes its cached source belongs to
+  must,     \* [Stores -> [Keys -> Vers \cup {0}]]   ghost: version for which a completed, not since invalidated call exists
   resp,     \* last response <<version of the returned value, executed?, version of the code that was called>>
   nops,
   hist      \* history of operations (only meaningful when Gen)
 
 vars == <<ocode, code, entries, fh, writer, src, cid, must, resp, nops, hist>>
-None == <<0, 0>>
+None == <<<<0, 0>>, 0>>
+ZK == [k \in Keys |-> 0]
+ZS == [st \in Stores |-> 0]
 
 Init ==
-  /\ ocode = [o \in Objs |-> 0] /\ code = 0 /\ entries = [k \in Keys |-> 0]
-  /\ fh = [o \in Objs |-> 0] /\ writer = [p \in Procs |-> None]
-  /\ src = [o \in Objs |-> 0] /\ cid = [o \in Objs |-> 0]
-  /\ must = [k \in Keys |-> 0] /\ resp = <<0, FALSE, 0>> /\ nops = 0 /\ hist = <<>>
+  /\ ocode = [o \in Objs |-> 0] /\ code = ZS /\ entries = [st \in Stores |-> ZK]
+  /\ fh = [o \in Objs |-> 0] /\ writer = [p \in Procs |-> [st \in Stores |-> None]]
+  /\ src = [o \in Objs |-> ZS] /\ cid = [o \in Objs |-> ZS]
+  /\ must = [st \in Stores |-> ZK] /\ resp = <<0, FALSE, 0>> /\ nops = 0 /\ hist = <<>>
 
 Log(e) == hist' = IF Gen THEN Append(hist, e) ELSE hist
 Step == nops < MaxOps /\ nops' = nops + 1
@@ -45,8 +50,8 @@ Step == nops < MaxOps /\ nops' = nops + 1
 \* a new function object with the same name (and a new wrapper) in process o[1]
 Define(o, v) ==
   /\ Step /\ ocode' = [ocode EXCEPT ![o] = v]
-  /\ fh' = [fh EXCEPT ![o] = 0] /\ src' = [src EXCEPT ![o] = 0] /\ cid' = [cid EXCEPT ![o] = 0]
-  /\ writer' = [writer EXCEPT ![o[1]] = IF @ = o THEN None ELSE @]
+  /\ fh' = [fh EXCEPT ![o] = 0] /\ src' = [src EXCEPT ![o] = ZS] /\ cid' = [cid EXCEPT ![o] = ZS]
+  /\ writer' = [writer EXCEPT ![o[1]] = [st \in Stores |-> IF @[st][1] = o THEN None ELSE @[st]]]
   /\ Log([op |-> "define", p |-> o[1], i |-> o[2], v |-> v])
   /\ UNCHANGED <<code, entries, must, resp>>
 
@@ -62,59 +67,60 @@ Restart(p) ==
   /\ Step
   /\ ocode' = [o \in Objs |-> IF o[1] = p THEN 0 ELSE ocode[o]]
   /\ fh' = [o \in Objs |-> IF o[1] = p THEN 0 ELSE fh[o]]
-  /\ src' = [o \in Objs |-> IF o[1] = p THEN 0 ELSE src[o]]
-  /\ cid' = [o \in Objs |-> IF o[1] = p THEN 0 ELSE cid[o]]
-  /\ writer' = [writer EXCEPT ![p] = None]
+  /\ src' = [o \in Objs |-> IF o[1] = p THEN ZS ELSE src[o]]
+  /\ cid' = [o \in Objs |-> IF o[1] = p THEN ZS ELSE cid[o]]
+  /\ writer' = [writer EXCEPT ![p] = [st \in Stores |-> None]]
   /\ Log([op |-> "restart", p |-> p])
   /\ UNCHANGED <<code, entries, must, resp>>
 
-Call(o, k) ==
+Call(o, st, k) ==
   LET v == ocode[o]
       p == o[1]
       \* func_code_info: cached source, refreshed when the code object changed
-      stale == cid[o] # 0 /\ cid[o] # v
-      cid2 == IF cid[o] = 0 THEN v ELSE IF stale /\ FixD13 THEN v ELSE cid[o]
-      s == IF src[o] = 0 \/ stale THEN v ELSE src[o]
-      fast == fh[o] = v /\ (FixD6 => writer[p] = o)
-      slowValid == code = s
+      stale == cid[o][st] # 0 /\ cid[o][st] # v
+      cid2 == IF cid[o][st] = 0 THEN v ELSE IF stale /\ FixD13 THEN v ELSE cid[o][st]
+      s == IF src[o][st] = 0 \/ stale THEN v ELSE src[o][st]
+      fast == fh[o] = v /\ (FixD6 => writer[p][st] = <<o, v>>)
+      slowValid == code[st] = s
       valid == fast \/ slowValid
-      wipe == ~valid /\ (code # 0 \/ FixD5c)
-      ent2 == IF wipe THEN [kk \in Keys |-> 0] ELSE entries
-      hit == valid /\ entries[k] # 0
+      wipe == ~valid /\ (code[st] # 0 \/ FixD5c)
+      ent2 == IF wipe THEN ZK ELSE entries[st]
+      hit == valid /\ entries[st][k] # 0
   IN
   /\ Step /\ v # 0
-  /\ cid' = [cid EXCEPT ![o] = cid2] /\ src' = [src EXCEPT ![o] = s]
+  /\ cid' = [cid EXCEPT ![o][st] = cid2] /\ src' = [src EXCEPT ![o][st] = s]
   /\ IF valid
      THEN UNCHANGED <<code, fh, writer>>
-     ELSE /\ code' = s /\ fh' = [fh EXCEPT ![o] = v] /\ writer' = [writer EXCEPT ![p] = o]
-  /\ entries' = IF hit THEN entries ELSE [ent2 EXCEPT ![k] = v]
-  /\ resp' = IF hit THEN <<entries[k], FALSE, v>> ELSE <<v, TRUE, v>>
-  /\ must' = IF wipe \/ (\E kk \in Keys : must[kk] # 0 /\ must[kk] # v)
-             THEN [kk \in Keys |-> IF kk = k THEN v ELSE 0]
-             ELSE [must EXCEPT ![k] = v]
-  /\ Log([op |-> "call", p |-> p, i |-> o[2], k |-> k])
+     ELSE /\ code' = [code EXCEPT ![st] = s] /\ fh' = [fh EXCEPT ![o] = v] /\ writer' = [writer EXCEPT ![p][st] = <<o, v>>]
+  /\ entries' = IF hit THEN entries ELSE [entries EXCEPT ![st] = [ent2 EXCEPT ![k] = v]]
+  /\ resp' = IF hit THEN <<entries[st][k], FALSE, v>> ELSE <<v, TRUE, v>>
+  /\ must' = [must EXCEPT ![st] =
+                IF wipe \/ (\E kk \in Keys : must[st][kk] # 0 /\ must[st][kk] # v)
+                THEN [kk \in Keys |-> IF kk = k THEN v ELSE 0]
+                ELSE [must[st] EXCEPT ![k] = v]]
+  /\ Log([op |-> "call", p |-> p, i |-> o[2], s |-> st, k |-> k])
   /\ UNCHANGED ocode
 
-ClearFunc(o) ==
+ClearFunc(o, st) ==
   /\ Step /\ ocode[o] # 0
-  /\ entries' = [k \in Keys |-> 0] /\ must' = [k \in Keys |-> 0]
-  /\ code' = ocode[o] /\ fh' = [fh EXCEPT ![o] = ocode[o]] /\ writer' = [writer EXCEPT ![o[1]] = o]
-  /\ src' = [src EXCEPT ![o] = ocode[o]] /\ cid' = [cid EXCEPT ![o] = ocode[o]]
-  /\ Log([op |-> "clear", p |-> o[1], i |-> o[2]])
+  /\ entries' = [entries EXCEPT ![st] = ZK] /\ must' = [must EXCEPT ![st] = ZK]
+  /\ code' = [code EXCEPT ![st] = ocode[o]] /\ fh' = [fh EXCEPT ![o] = ocode[o]] /\ writer' = [writer EXCEPT ![o[1]][st] = <<o, ocode[o]>>]
+  /\ src' = [src EXCEPT ![o][st] = ocode[o]] /\ cid' = [cid EXCEPT ![o][st] = ocode[o]]
+  /\ Log([op |-> "clear", p |-> o[1], i |-> o[2], s |-> st])
   /\ UNCHANGED <<ocode, resp>>
 
-Evict(k) ==
-  /\ Step /\ entries[k] # 0
-  /\ entries' = [entries EXCEPT ![k] = 0] /\ must' = [must EXCEPT ![k] = 0]
-  /\ Log([op |-> "evict", k |-> k])
+Evict(st, k) ==
+  /\ Step /\ entries[st][k] # 0
+  /\ entries' = [entries EXCEPT ![st][k] = 0] /\ must' = [must EXCEPT ![st][k] = 0]
+  /\ Log([op |-> "evict", s |-> st, k |-> k])
   /\ UNCHANGED <<ocode, code, fh, writer, src, cid, resp>>
 
 Next ==
   \/ \E o \in Objs, v \in Vers : Define(o, v) \/ Swap(o, v)
   \/ \E p \in Procs : Restart(p)
-  \/ \E o \in Objs, k \in Keys : Call(o, k)
-  \/ \E o \in Objs : ClearFunc(o)
-  \/ \E k \in Keys : Evict(k)
+  \/ \E o \in Objs, st \in Stores, k \in Keys : Call(o, st, k)
+  \/ \E o \in Objs, st \in Stores : ClearFunc(o, st)
+  \/ \E st \in Stores, k \in Keys : Evict(st, k)
 
 Spec == Init /\ [][Next]_vars
 
@@ -124,8 +130,8 @@ ValueCorrect == resp[1] = resp[3]
 \* C06 / C12: a completed call that nothing invalidated is served without executing the body
 \* (checked as an action property: the ghost `must` before the call decides)
 HitWhenDue ==
-  [][\A o \in Objs, k \in Keys :
-       (Call(o, k) /\ must[k] = ocode[o] /\ must[k] # 0) => resp'[2] = FALSE]_vars
+  [][\A o \in Objs, st \in Stores, k \in Keys :
+       (Call(o, st, k) /\ must[st][k] = ocode[o] /\ must[st][k] # 0) => resp'[2] = FALSE]_vars
 
 \* behaviour generation: print the history of every behaviour of maximal length
 Emit == (Gen /\ nops = MaxOps) => PrintT(ToJson(hist))
